@@ -381,6 +381,7 @@ class Program:
             ent = table.get(Program.pin_key(newq, f))
             r = ren.setdefault(f.unit, {})
             if ent is not None and not ent.get('ambiguous'):
+                f._known_locals = set(ent['locals']) | set(ent['params'])
                 if len(ent['params']) == len(f.params):
                     for p_, want in zip(f.params, ent['params']):
                         if p_.get('n'):
